@@ -184,6 +184,8 @@ fn crafted() -> Vec<(String, Vec<KEv>)> {
     // action must be either refused by the parser or performed without a crash
     for act in [
         "use-defsrc", "@tr", "@src", "(multi x use-defsrc)", "(multi x @tr)", "(tap-hold 50 50 x @tr)", "(tap-hold 50 50 @src y)",
+        "(tap-hold-release-timeout 50 50 x y @tr)", "(tap-hold-press-timeout 50 50 x y @src)", "(tap-hold-release-timeout 50 50 x y use-defsrc)",
+        "(tap-hold-release-timeout 50 50 x y (multi z @tr))", "(tap-hold-release-keys 50 50 x @src (c))",
         "(one-shot 100 @src)", "(tap-dance 50 (x @tr))", "(fork @tr x (lsft))", "(fork x @src (lsft))", "(switch () @tr break)",
         "(switch ((key-history a 1)) x break () @src break)", "(chord grp a)", "@th", "(one-shot 100 lsft)", "(tap-dance 50 (x y))",
         "(layer-while-held l1)", "rpt", "rpt-any", "(macro x 10 y)", "(release-key a)", "(caps-word 100)", "(unmod x)",
